@@ -538,7 +538,17 @@ async fn run_big_batch(kind: Kind, n: usize, order: WaveOrder) -> (Bad, u64) {
 /// blocking Client over loopback TCP: a batch of n, answered in waves (a wave ends when
 /// nothing more arrives for 60 ms of real time; how the requests split into waves does not
 /// matter to the oracle, only that every request is answered once).
+/// Real sockets and real time: a finding must reproduce in a second execution of the same scenario.
 fn run_big_batch_blocking(n: usize, order: WaveOrder) -> (Bad, u64) {
+    let (bad, flags) = big_batch_blocking_once(n, order);
+    if bad.is_empty() {
+        return (bad, flags);
+    }
+    let (again, _) = big_batch_blocking_once(n, order);
+    (bad.into_iter().filter(|(k, _)| again.iter().any(|(k2, _)| k2 == k)).collect(), flags)
+}
+
+fn big_batch_blocking_once(n: usize, order: WaveOrder) -> (Bad, u64) {
     use std::io::{Read, Write};
     let mut bad = Bad::new();
     let ctx = format!("blocking Client batch of {n} answered in {order:?} waves");
